@@ -689,6 +689,14 @@ void Parser::ParserImpl::loadComponent(const ComponentPtr &component, const XmlN
             // of the math node into the math node.
             auto mathElementDefinedNamespaces = childNode->definedNamespaces();
             auto possiblyUndefinedNamespaces = traverseTreeForUndefinedNamespaces(childNode->firstChild());
+            // The attributes of the math element itself may also use prefixes that are declared on an ancestor.
+            auto mathAttribute = childNode->firstAttribute();
+            while (mathAttribute != nullptr) {
+                if (!mathAttribute->namespacePrefix().empty()) {
+                    possiblyUndefinedNamespaces.emplace(mathAttribute->namespacePrefix(), mathAttribute->namespaceUri());
+                }
+                mathAttribute = mathAttribute->next();
+            }
             auto undefinedNamespaces = determineMissingNamespaces(possiblyUndefinedNamespaces, mathElementDefinedNamespaces);
             XmlNamespaceMap::const_iterator it;
             for (it = undefinedNamespaces.begin(); it != undefinedNamespaces.end(); ++it) {
